@@ -1923,3 +1923,23 @@ Lemma zlb_policies_admissible f now prev :
   zlb_choice f now None = now + f_zlb f /\
   zlb_choice f now (Some (Z.min prev (now + f_zlb f))) = Z.min prev (now + f_zlb f).
 Proof. unfold zlb_choice. split; [reflexivity|]. destruct (Z.min prev (now + f_zlb f) <=? now + f_zlb f) eqn:E; lia. Qed.
+
+(* ================= the bring-up over a faulty network, end to end ================= *)
+(* LAC = A, LNS = B.  Bodies: 1 SCCRQ, 2 SCCRP, 3 SCCCN, 4 ICRQ, 5 ICRP, 6 ICCN.  The first SCCRP is lost, the SCCRQ is
+   retransmitted (a duplicate for B), the network duplicates the ICRQ: each protocol machine still receives every
+   message of its peer exactly once, in order, and both queues drain. *)
+Definition bringup : list event :=
+  let hc := head_choice in
+  [ Submit SA 1 0 0 None; Deliver SB 0 1 None hc; Submit SB 2 0 1 None;
+    Tick SA 1000 []; Deliver SB 1 1001 None hc; Tick SB 1001 [];
+    Deliver SA 1 1002 None hc; Submit SA 3 0 1002 None; Submit SA 4 0 1002 None;
+    Deliver SB 2 1003 None hc; Deliver SB 3 1004 None hc; Submit SB 5 0 1004 None;
+    Deliver SB 3 1005 None hc;
+    Deliver SA 2 1006 None hc; Submit SA 6 0 1006 None;
+    Deliver SB 4 1007 None hc; Tick SB 1300 []; Deliver SA 3 1301 None hc ].
+Lemma bringup_example :
+  let s := run false (init_sys (0, 0, 0, 0, 16) (0, 0, 0, 0, 16) 0 0) bringup in
+  honest bringup = true /\
+  e_del (s_b s) = [1; 3; 4; 6] /\ e_sub (s_a s) = [1; 3; 4; 6] /\ e_del (s_a s) = [2; 5] /\ e_sub (s_b s) = [2; 5] /\
+  c_q (e_ch (s_a s)) = [] /\ c_q (e_ch (s_b s)) = [] /\ e_dead (s_a s) = 0%nat /\ e_dead (s_b s) = 0%nat.
+Proof. vm_compute. splits; reflexivity. Qed.
